@@ -57,6 +57,15 @@ CLAIMED = {
         "Does not decide inverse-ness over the date/duration value domains, time zones, microseconds or Unit.",
         "Trusted: stdlib isoformat/fromisoformat; W3C values of the 17 basic colours; ISO 8601 unit sizes.",
         "DESIGN.md §4 C18"),
+    "C19": (
+        "axis typing by abstract interpretation (x/y tags from unpack position, translating helper or paired length) with sink checks; delimiter-table comparison of the named-range address writer and reader; dominance query on the rename; call-graph reachability of the coordinate parser",
+        "Partial, structural. Decides for every coordinate-derived integer in Table, Row and NamedRange methods that column components feed only "
+        "column ranges/widths/x stamps and row components only row ranges/heights/y stamps (187 sink sites), that transpose writes back the "
+        "transposed rectangle, that the named-range address writer quotes what its reader splits on (open known finding), that a rename retargets "
+        "named ranges before overwriting the name, and that all 47 public coordinate parameters reach the one parser. "
+        "Does not decide the letters<->numbers bijection nor convert_coordinates' parsing.",
+        "Trusted: the documented (x, y, z, t) component order; ODF address grammar for quoting.",
+        "DESIGN.md §4 C19"),
 }
 
 NOT_APPLICABLE = {
